@@ -25,11 +25,11 @@ theorem mem_seq : obsSeq (Model.Seq.runMvp1 memApp ⟨ctx0 128, 0⟩ 10) 7 0 = (
   decide +kernel
 
 theorem mem_p1 : obs (run memApp (ctx0 128) 1 1 1000) 7 0 = (some .offEnd, 932, 2, 0x11#32, 0#32, stored) := by
-  decide +kernel
+  rw [← Proofs.Mvp60Fast.runFast_eq_run]; decide +kernel
 
 /-- two units: the run ends normally and the store is LOST (`Memory[4..5]` is `0x11` again) -/
 theorem mem_p2 : obs (run memApp (ctx0 128) 2 2 1000) 7 0 = (some .offEnd, 934, 2, 0x11#32, 0#32, m11) := by
-  decide +kernel
+  rw [← Proofs.Mvp60Fast.runFast_eq_run]; decide +kernel
 
 /-! ### KF-ooo-spec-error: an instruction on the wrong path raises its error
 
@@ -45,10 +45,10 @@ theorem err_seq : obsSeq (Model.Seq.runMvp1 errApp ⟨ctx0 64, 0⟩ 10) 7 17 = (
   decide +kernel
 
 theorem err_p1 : obs (run errApp (ctx0 64) 1 1 1000) 7 17 = (some .offEnd, 321, 2, 0#32, 0#32, m11) := by
-  decide +kernel
+  rw [← Proofs.Mvp60Fast.runFast_eq_run]; decide +kernel
 
-theorem err_p2 : (obs (run errApp (ctx0 64) 2 2 1000) 7 17).1 = some .err := by
-  decide +kernel
+theorem err_p2 : obs (run errApp (ctx0 64) 2 2 1000) 7 17 = (some .err, 316, 3, 0#32, 0#32, m11) := by
+  rw [← Proofs.Mvp60Fast.runFast_eq_run]; decide +kernel
 
 /-! ### the witness of KF-ooo-shadow is executed CORRECTLY by MVP-6.0
 
@@ -67,6 +67,6 @@ theorem shadow_seq : obsSeq (Model.Seq.runMvp1 shadowApp ⟨ctx0 128, 0⟩ 10) 3
   decide +kernel
 
 theorem shadow_p2 : obs (run shadowApp (ctx0 128) 2 2 1000) 30 14 = (some .offEnd, 940, 3, 0x11111111#32, 0#32, m11) := by
-  decide +kernel
+  rw [← Proofs.Mvp60Fast.runFast_eq_run]; decide +kernel
 
 end Proofs.Mvp60Witness
